@@ -32,6 +32,7 @@ Outcome(g, o) ==
     [] o.op = "Reserve" -> OpReserve(g, o.seat)
     [] o.op = "Leave" -> OpLeave(g, o.seat)
     [] o.op = "Next" -> OpNext(g)
+    [] o.op = "Reset" -> OpReset(g)
     [] o.op = "MT.Apply" -> OpApplySeatChanges(g, [dealer |-> o.pos[1], sb |-> o.pos[2], bb |-> o.pos[3], left |-> SeqSetS(o.left)])
     [] OTHER -> R(g, "?")
 StepOK(g, o, t) == LET r == Outcome(g, o) IN r.res = o.res /\ (r.res = "PANIC" \/ [r.m EXCEPT !.crashed = FALSE] = t)
